@@ -5,7 +5,11 @@
    differential through a hook that runs the real function; the
    function was repaired in /repo commit 2ea5edc after this vertical found KF-C16-1); `RouteOK` / `routeValid` are the
    specification and the checker the driver runs on every route the real `find_route` returns
-   (Model/RouteValid.lean).  The router's search is not modelled (translation validation). -/
+   (Model/RouteValid.lean).  The router's search is not modelled (translation validation).
+   v2: the candidates are the router's `CandidateRouteHop`s — public channel directions, the caller's
+   first hops (known under alias AND real scid), route-hint hops, blinded payment paths (one candidate,
+   the path's BlindedTail) — and what the router reads of each variant is the GENERATED `candidate_*`
+   tables. -/
 import LdkModel.Proofs.Route
 namespace Ldk.C16
 open Ldk Ldk.Router Ldk.RouteFees Ldk.RouteValid Ldk.RouteProofs
@@ -49,13 +53,11 @@ theorem driver_verdict_correct (g : Graph) (p : Params) (r : Route) :
 
 example : verdict exGraph exParams exRoute = "valid" := by decide
 
-/-- The limit the capacity clause uses — the generated `max_htlc_from_capacity` at saturation power 0
-    applied to `DirectedChannelInfo::effective_capacity` — is min(htlc_maximum, capacity). -/
-theorem limit_is_min_of_max_and_capacity (c : Chan) :
-    c.limit = match c.cap with
+private theorem pub_limit (c : Chan) :
+    max_htlc_from_capacity c.pubCapacity 0 = match c.cap with
               | some k => min c.htlcMax k
               | none => c.htlcMax := by
-  unfold Chan.limit Chan.effectiveCapacity max_htlc_from_capacity chkShr64
+  unfold Chan.pubCapacity max_htlc_from_capacity chkShr64
   cases c.cap with
   | none => simp
   | some k =>
@@ -66,7 +68,230 @@ theorem limit_is_min_of_max_and_capacity (c : Chan) :
     have h2 : ∀ x, Nat.min k x = min k x := fun _ => rfl
     rw [h1, h2]; omega
 
+/-- The limit the capacity clause uses — the generated `max_htlc_from_capacity` at saturation power 0
+    applied to the generated `candidate_capacity` (CandidateRouteHop::effective_capacity) — is, per kind of
+    candidate: min(htlc_maximum, capacity) of a public channel direction, next_outbound_htlc_limit_msat of a
+    first hop, the hint's / payinfo's htlc_maximum_msat (unbounded without one / for a one-hop blinded path). -/
+theorem limit_is_min_of_max_and_capacity (c : Chan) :
+    c.limit = match c.kind with
+              | .publicHop => (match c.cap with
+                               | some k => min c.htlcMax k
+                               | none => c.htlcMax)
+              | .firstHop => c.htlcMax
+              | .privateHop => if c.unbounded then U64_MAX else c.htlcMax
+              | .blinded => c.htlcMax
+              | .oneHopBlinded => U64_MAX := by
+  unfold Chan.limit Chan.effectiveCapacity candidate_capacity
+  cases hk : c.kind with
+  | publicHop => simpa using pub_limit c
+  | firstHop => simp [max_htlc_from_capacity]
+  | privateHop => cases c.unbounded <;> simp [max_htlc_from_capacity]
+  | blinded => simp [max_htlc_from_capacity]
+  | oneHopBlinded => simp [max_htlc_from_capacity]
+
 example : (exGraph.map Chan.limit) = [10000, 10000, 3000, 3000, 2500, 2500] := by decide
+example : ({ (default : Chan) with kind := .firstHop, htlcMax := 500000, cap := some 7 } : Chan).limit = 500000 := by decide
+example : ({ (default : Chan) with kind := .privateHop, unbounded := true } : Chan).limit = U64_MAX := by decide
+
+/-- … and it is the translated per-hop bound of PaymentPath::max_final_value_msat (`hop_max_msat`) for an unused
+    candidate at saturation power 0 (the power get_route falls back to before it gives up). -/
+theorem limit_is_translated_hop_max (c : Chan) : c.limit = hop_max_msat c.effectiveCapacity 0 0 := by
+  unfold Chan.limit hop_max_msat; omega
+
+example : hop_max_msat (.exactLiquidity 500000) 2 100000 = 400000 := by decide
+
+/-! ## first hops, route hints, blinded tails -/
+
+/-- get_route step (1), as translated from the source on this run: a route-hint hop names a direct channel of
+    ours iff its scid is the channel's outbound alias OR its real short_channel_id.  (Seeded C16-r4 compares
+    only `get_outbound_payment_scid()`: this theorem no longer compiles then.) -/
+theorem hint_naming_own_channel_is_recognised (alias scid : Option Nat) (h : Nat) :
+    matches_an_scid alias scid h = true ↔ (alias = some h ∨ scid = some h) := by
+  unfold matches_an_scid; simp
+
+example : matches_an_scid (some 44) (some 1) 1 = true := by decide
+example : matches_an_scid (some 44) (some 1) 7 = false := by decide
+
+/-- The checker identifies a first-hop channel exactly as the router does: with the ids the driver derives
+    from the raw ChannelDetails fields (`firstHopIds`, through the generated get_outbound_payment_scid), a
+    scid names the channel (`Chan.named`) iff the translated `matches_an_scid` accepts it. -/
+theorem checker_names_first_hop_as_router (alias scid : Option Nat) (out : Nat) (alt : Option Nat) (c : Chan) (h : Nat)
+    (hid : firstHopIds alias scid = some (out, alt)) (hs : c.scid = out) (ha : c.alt = alt) :
+    c.named h = matches_an_scid alias scid h := by
+  have hm := hint_naming_own_channel_is_recognised alias scid h
+  unfold firstHopIds get_outbound_payment_scid at hid
+  have hn : c.named h = true ↔ (alias = some h ∨ scid = some h) := by
+    unfold Chan.named
+    cases alias with
+    | none =>
+      cases scid with
+      | none => simp at hid
+      | some s =>
+        simp at hid; obtain ⟨h1, h2⟩ := hid
+        rw [hs, ha, ← h1, ← h2]; simp
+    | some a =>
+      simp at hid; obtain ⟨h1, h2⟩ := hid
+      rw [hs, ha, ← h1, ← h2]
+      cases scid with
+      | none => simp
+      | some s => simp
+  cases h1 : c.named h <;> cases h2 : matches_an_scid alias scid h <;> simp_all
+
+example : firstHopIds (some 44) (some 1) = some (44, some 1) := by decide
+example : firstHopIds none (some 1) = some (1, none) := by decide
+
+/-- a request with first hops (two channels to node 1, both with an alias different from the real scid), a
+    two-hop route hint 1 → 3 → 2, a public channel 1 → 2 -/
+def exGraph2 : Graph :=
+  [ { scid := 44, alt := some 1, kind := .firstHop, src := 0, dst := 1, enabled := true, htlcMin := 0, htlcMax := 500000, cap := none, base := 9, prop := 9, cltv := 9 },
+    { scid := 45, alt := some 2, kind := .firstHop, src := 0, dst := 1, enabled := true, htlcMin := 0, htlcMax := 400000, cap := none, base := 0, prop := 0, cltv := 0 },
+    { scid := 1, src := 0, dst := 1, enabled := true, htlcMin := 1, htlcMax := 100, cap := none, base := 7, prop := 0, cltv := 40 },
+    { scid := 1, src := 1, dst := 0, enabled := true, htlcMin := 1, htlcMax := 100, cap := none, base := 1, prop := 1, cltv := 40 },
+    { scid := 5, src := 1, dst := 2, enabled := true, htlcMin := 1, htlcMax := 300000, cap := none, base := 10, prop := 0, cltv := 40 },
+    { scid := 5, src := 2, dst := 1, enabled := true, htlcMin := 1, htlcMax := 300000, cap := none, base := 0, prop := 0, cltv := 40 },
+    { scid := 77, kind := .privateHop, src := 1, dst := 3, enabled := true, htlcMin := 0, htlcMax := 0, unbounded := true, cap := none, base := 100, prop := 0, cltv := 30 },
+    { scid := 78, kind := .privateHop, src := 3, dst := 2, enabled := true, htlcMin := 0, htlcMax := 450000, cap := none, base := 50, prop := 0, cltv := 20 } ]
+def exParams2 : Params :=
+  { payer := 0, payee := 2, amount := 600000, maxFee := none, maxCltv := 300, maxPaths := 3, maxLen := 4, finalCltv := 18, excluded := [], hasFirst := true }
+/-- 300000 over first hop 44 and the public channel, 300000 over first hop 45 (named by its REAL scid 2) and the hint -/
+def exRoute2 : Route :=
+  [ [ { scid := 44, node := 1, fee := 10, cltv := 40 }, { scid := 5, node := 2, fee := 300000, cltv := 18 } ],
+    [ { scid := 2, node := 1, fee := 100, cltv := 30 }, { scid := 77, node := 3, fee := 50, cltv := 20 }, { scid := 78, node := 2, fee := 300000, cltv := 18 } ] ]
+example : RouteOK exGraph2 exParams2 exRoute2 := (route_checker_correct _ _ _).mp (by decide)
+-- the payer's own PUBLIC channel (scid 1, limit 100) plays no role: the first hop named `1` is first-hop channel 44
+example : resolve exGraph2 exParams2 0 { scid := 1, node := 1, fee := 0, cltv := 0 } = exGraph2.head? := by decide
+-- C16-r4's symptom: the same first-hop channel (limit 500000) used under its alias 44 by one path and under its
+-- real scid 1 by the other is ONE channel: 300010 + 300150 msat exceed it
+def exRoute2bad : Route :=
+  [ [ { scid := 44, node := 1, fee := 10, cltv := 40 }, { scid := 5, node := 2, fee := 300000, cltv := 18 } ],
+    [ { scid := 1, node := 1, fee := 100, cltv := 30 }, { scid := 77, node := 3, fee := 50, cltv := 20 }, { scid := 78, node := 2, fee := 300000, cltv := 18 } ] ]
+example : ¬ RouteOK exGraph2 exParams2 exRoute2bad :=
+  fun h => absurd ((route_checker_correct _ _ _).mpr h) (by decide)
+example : verdict exGraph2 exParams2 exRoute2bad = "invalid capacity" := by decide
+-- with first hops supplied a first hop that is none of them is refused, whatever the graph or the hints say
+example : verdict (exGraph2 ++ [{ scid := 99, kind := .privateHop, src := 0, dst := 1, enabled := true, htlcMin := 0, htlcMax := 0, unbounded := true, cap := none, base := 0, prop := 0, cltv := 0 }]) exParams2
+    [ [ { scid := 99, node := 1, fee := 10, cltv := 40 }, { scid := 5, node := 2, fee := 600000, cltv := 18 } ] ] = "invalid chain" := by decide
+
+/-- Through the supplied first hops: in a route that meets the specification of a request WITH first hops,
+    every path starts with an unblinded hop that stands for one of the supplied, usable first-hop candidates to
+    that peer, named by its alias or by its real scid — never a channel of the graph or of a hint. -/
+theorem route_starts_at_supplied_first_hop (g : Graph) (p : Params) (r : Route) (h : RouteOK g p r)
+    (hf : p.hasFirst = true) : ∀ path ∈ r, ∃ hd tl c, path = hd :: tl ∧ hd.blinded = false ∧ c ∈ g ∧
+      c.kind = .firstHop ∧ c.named hd.scid = true ∧ c.src = p.payer ∧ c.dst = hd.node ∧ c.enabled = true := by
+  have key : ∀ hd c, resolve g p p.payer hd = some c →
+      hd.blinded = false ∧ c ∈ g ∧ c.kind = .firstHop ∧ c.named hd.scid = true ∧ c.src = p.payer ∧ c.dst = hd.node := by
+    intro hd c hr
+    unfold resolve public_candidate_considered at hr
+    cases hb : hd.blinded with
+    | true => simp [hb] at hr
+    | false =>
+      simp only [hb, hf, Bool.false_eq_true, if_false, Bool.not_true, Bool.false_or, beq_self_eq_true,
+        Bool.not_false, if_true] at hr
+      have hm := List.mem_of_find?_eq_some hr
+      have hpred := List.find?_some hr
+      simp only [Bool.and_eq_true, beq_iff_eq] at hpred
+      exact ⟨rfl, hm, hpred.1.1.1, hpred.1.1.2, hpred.1.2, hpred.2⟩
+  intro path hp
+  have hc := h.chain path hp
+  cases hc with
+  | last _ hd c hl hok _ _ =>
+    obtain ⟨k0, k1, k2, k3, k4, k5⟩ := key hd c hl
+    exact ⟨hd, [], c, rfl, k0, k1, k2, k3, k4, k5, hok.2.1⟩
+  | cons _ hd h' t c c' f hl hok hl' hf' hfee hcl hrest =>
+    obtain ⟨k0, k1, k2, k3, k4, k5⟩ := key hd c hl
+    exact ⟨hd, h' :: t, c, rfl, k0, k1, k2, k3, k4, k5, hok.2.1⟩
+
+example : ∃ hd tl c, exRoute2.head! = hd :: tl ∧ c ∈ exGraph2 ∧ c.kind = .firstHop ∧ c.named hd.scid = true :=
+  ⟨_, _, exGraph2.head!, rfl, by decide, by decide, by decide⟩
+
+/-- a request to a BLINDED payee (virtual node 9): two blinded paths with introduction nodes 1 and 2 -/
+def exGraph3 : Graph :=
+  [ { scid := 44, alt := some 1, kind := .firstHop, src := 0, dst := 1, enabled := true, htlcMin := 0, htlcMax := 500000, cap := none, base := 0, prop := 0, cltv := 0 },
+    { scid := 5, src := 1, dst := 2, enabled := true, htlcMin := 1, htlcMax := 300000, cap := none, base := 10, prop := 0, cltv := 40 },
+    { scid := 5, src := 2, dst := 1, enabled := true, htlcMin := 1, htlcMax := 300000, cap := none, base := 0, prop := 0, cltv := 40 },
+    { scid := 0, kind := .blinded, src := 2, dst := 9, enabled := true, htlcMin := 1000, htlcMax := 150000, cap := none, base := 500, prop := 10000, cltv := 100 },
+    { scid := 1, kind := .oneHopBlinded, src := 1, dst := 9, enabled := true, htlcMin := 7777777, htlcMax := 1, cap := none, base := 999, prop := 999, cltv := 999 } ]
+def exParams3 : Params :=
+  { payer := 0, payee := 9, amount := 200000, maxFee := some 5000, maxCltv := 200, maxPaths := 2, maxLen := 2, finalCltv := 0, excluded := [], hasFirst := true }
+/-- 100000 through blinded path 0 (fee 500 + 1 % = 1500 kept by its introduction node 2, CLTV delta 100) and 100000
+    through the one-hop blinded path 1 at node 1 (its payinfo is ignored: no fee, no minimum, no maximum) -/
+def exRoute3 : Route :=
+  [ [ { scid := 44, node := 1, fee := 10, cltv := 40 }, { scid := 5, node := 2, fee := 1500, cltv := 100 }, { scid := 0, node := 9, fee := 100000, cltv := 0, blinded := true } ],
+    [ { scid := 1, node := 1, fee := 0, cltv := 0 }, { scid := 1, node := 9, fee := 100000, cltv := 0, blinded := true } ] ]
+example : RouteOK exGraph3 exParams3 exRoute3 := (route_checker_correct _ _ _).mp (by decide)
+example : (exRoute3.map pathLen, delivered exRoute3, totalFees exParams3 exRoute3, exRoute3.map totalCltv) = ([2, 1], 200000, 1510, [140, 0]) := by decide
+-- the introduction node keeps one msat less than the BlindedPayInfo fee: refused
+example : verdict exGraph3 exParams3
+  [ [ { scid := 44, node := 1, fee := 10, cltv := 40 }, { scid := 5, node := 2, fee := 1499, cltv := 100 }, { scid := 0, node := 9, fee := 100000, cltv := 0, blinded := true } ],
+    [ { scid := 1, node := 1, fee := 0, cltv := 0 }, { scid := 1, node := 9, fee := 100000, cltv := 0, blinded := true } ] ] = "invalid chain" := by decide
+-- a previously failed blinded path is excluded by its index
+example : verdict exGraph3 { exParams3 with excludedBlinded := [0] } exRoute3 = "invalid chain" := by decide
+-- both parts through blinded path 0 exceed its htlc_maximum_msat jointly
+example : verdict exGraph3 { exParams3 with maxFee := none }
+  [ [ { scid := 44, node := 1, fee := 10, cltv := 40 }, { scid := 5, node := 2, fee := 1500, cltv := 100 }, { scid := 0, node := 9, fee := 100000, cltv := 0, blinded := true } ],
+    [ { scid := 1, node := 1, fee := 10, cltv := 40 }, { scid := 5, node := 2, fee := 1500, cltv := 100 }, { scid := 0, node := 9, fee := 100000, cltv := 0, blinded := true } ] ] = "invalid capacity" := by decide
+
+/-- What the router reads of a candidate, per variant (statements about the GENERATED tables): our own channel
+    is free and adds no CLTV delta; the BlindedPayInfo of a one-hop blinded path is ignored altogether; exactly
+    the two blinded variants are not RouteHops (they become the path's BlindedTail). -/
+theorem candidate_tables (b pr cl mn mx : Nat) (nm : Bool) (ic : EffectiveCapacity) :
+    candidate_fees .firstHop b pr = (0, 0) ∧ candidate_cltv_expiry_delta .firstHop cl = 0 ∧
+    candidate_htlc_minimum_msat .firstHop mn = mn ∧ candidate_capacity .firstHop ic mx nm = .exactLiquidity mx ∧
+    candidate_fees .oneHopBlinded b pr = (0, 0) ∧ candidate_cltv_expiry_delta .oneHopBlinded cl = 0 ∧
+    candidate_htlc_minimum_msat .oneHopBlinded mn = 0 ∧ candidate_capacity .oneHopBlinded ic mx nm = .infinite ∧
+    candidate_fees .blinded b pr = (b, pr) ∧ candidate_cltv_expiry_delta .blinded cl = cl ∧
+    candidate_htlc_minimum_msat .blinded mn = mn ∧ candidate_capacity .blinded ic mx nm = .hintMaxHTLC mx ∧
+    candidate_fees .privateHop b pr = (b, pr) ∧ candidate_fees .publicHop b pr = (b, pr) ∧
+    candidate_capacity .publicHop ic mx nm = ic ∧
+    (∀ k, candidate_has_scid k = false ↔ (k = .blinded ∨ k = .oneHopBlinded)) := by
+  refine ⟨rfl, rfl, rfl, rfl, rfl, rfl, rfl, rfl, rfl, rfl, rfl, rfl, rfl, rfl, rfl, ?_⟩
+  intro k; cases k <;> simp [candidate_has_scid]
+
+example : (exGraph3.map Chan.feeBase, exGraph3.map Chan.minMsat) = ([0, 10, 0, 500, 0], [0, 1, 1, 1000, 0]) := by decide
+
+/-! ## the router's own bounds (translated / pinned statements of get_route and PaymentPath) -/
+
+/-- PaymentPath::max_final_value_msat, the per-hop contribution bound as it stands in the source: a value `v` within
+    the bound, plus the aggregated fee `B + v·P/10⁶` of the hops after it, exceeds the hop's maximum `M` by at most
+    ⌊P/10⁶⌋ msat — by nothing when the aggregated proportional fee is below 100 %.  (The `+ P` in the numerator
+    rounds up; it is what allows the excess for P ≥ 10⁶.) -/
+theorem max_contribution_within_hop_max (M B P f v : Nat)
+    (hf : hop_max_final_value_contribution M B P = some f) (hv : v ≤ f) :
+    v + (B + v * P / 1000000) ≤ M + P / 1000000 := by
+  unfold hop_max_final_value_contribution at hf
+  by_cases hB : B ≤ M
+  · simp only [hB, if_true, Option.some.injEq] at hf
+    subst hf
+    have h1 : v * (P + 1000000) ≤ (M - B) * 1000000 + P :=
+      (Nat.le_div_iff_mul_le (by omega)).mp hv
+    have h2 : v * P / 1000000 * 1000000 ≤ v * P := Nat.div_mul_le_self _ _
+    have h3 : P < (P / 1000000 + 1) * 1000000 := by
+      have := Nat.div_add_mod P 1000000
+      have := Nat.mod_lt P (show 0 < 1000000 by omega)
+      omega
+    have h4 : v * (P + 1000000) = v * P + v * 1000000 := Nat.mul_add _ _ _
+    generalize v * P / 1000000 = t at *
+    generalize v * P = vp at *
+    generalize P / 1000000 = u at *
+    omega
+  · simp [hB] at hf
+
+example : hop_max_final_value_contribution 1000000 1000 10000 = some 989108 := by decide
+example : 989108 + (1000 + 989108 * 10000 / 1000000) ≤ 1000000 := by decide
+-- the excess is real for P ≥ 10⁶: bound 1 on a hop that can carry 1 msat with a 200 % fee after it (1 + 2 > 1)
+example : hop_max_final_value_contribution 1 0 2000000 = some 1 ∧ ¬ (1 + (0 + 1 * 2000000 / 1000000) ≤ 1) := by decide
+
+/-- get_route's CLTV budget for the hops before the final one (pinned statement): whatever passes the search's
+    `exceeds_cltv_delta_limit` test leaves room for the final delta within max_total_cltv_expiry_delta (get_route
+    refuses `max_total_cltv_expiry_delta <= final_cltv_expiry_delta` beforehand).  The C16-r3 site. -/
+theorem search_cltv_budget_sound (maxTotal final hops : Nat) (h : hops ≤ search_cltv_budget maxTotal final) :
+    hops + final ≤ max maxTotal final := by
+  unfold search_cltv_budget MEDIAN_HOP_CLTV_EXPIRY_DELTA at h
+  simp only [] at h
+  have h' := Nat.le_trans h (Nat.min_le_left _ _)
+  split at h' <;> omega
+
+example : search_cltv_budget 1008 144 = 784 ∧ search_cltv_budget 100 40 = 60 ∧ search_cltv_budget 40 40 = 0 := by decide
 
 /-! ## fee arithmetic -/
 
